@@ -98,6 +98,11 @@ inline void emit_violation(const std::string &site, const std::string &kind, con
             << "\",\"input\":" << input_json << "}" << std::endl;
 }
 
+// digest of observable results (used by the auto-var-init differential of C07: two builds must agree)
+inline uint64_t &vp_digest() { static uint64_t d = 1469598103934665603ULL; return d; }
+inline void vp_dig(uint64_t x) { uint64_t &d = vp_digest(); for (int i = 0; i < 8; i++) { d ^= (x >> (8 * i)) & 0xff; d *= 1099511628211ULL; } }
+inline void vp_dig_double(double w) { uint64_t b; memcpy(&b, &w, 8); vp_dig(b); }
+
 struct Stats {
     long evaluations = 0;
     std::set<std::string> distinct;       // keys of distinct non-trivial inputs
@@ -114,6 +119,7 @@ struct Stats {
         std::cout << "},\"samples\":[";
         for (size_t i = 0; i < samples.size(); i++) { if (i) std::cout << ","; std::cout << samples[i]; }
         std::cout << "]}" << std::endl;
+        char buf[64]; snprintf(buf, sizeof buf, "VP-DIGEST %016llx", (unsigned long long) vp_digest()); std::cout << buf << std::endl;
     }
 };
 
